@@ -20,6 +20,7 @@ class Leg:
     quick_n = 300
     thorough_n = 6000
     shard = 250
+    extended_factor = 10       # extended failing-input search: this many times quick_n
 
     def generate(self, rng, n):
         raise NotImplementedError
@@ -226,7 +227,7 @@ def run_check(prop, tier):
         searched = 0
         for li, leg in enumerate(prop.legs):
             rng = random.Random(seed * 7919 + 17 + li)
-            n = (leg.thorough_n if tier == "thorough" else leg.quick_n) * (3 if tier == "thorough" else 10)
+            n = (leg.thorough_n if tier == "thorough" else leg.quick_n) * (3 if tier == "thorough" else leg.extended_factor)
             if leg.exhaustive:
                 continue
             for case in leg.generate(rng, n):
